@@ -82,7 +82,9 @@ def c10(ck):
 
 # ------------------------------------------------------------------------------------------ C15
 _NAMES = [b"", b"a", b"worker", b"0123456789abcde", "café".encode(), "线程-7".encode(), b"two words", b" lead", b"trail ", b"tab\there",
-          "\U0001f600x".encode(), b"\xff\xfe bad", b"\xc3(", b"Web Content"]
+          "\U0001f600x".encode(), b"\xff\xfe bad", b"\xc3(", b"Web Content",
+          # control characters the kernel reports unescaped in comm: embedded / trailing / only newline, carriage return, NUL-free binary
+          b"two\nlines", b"carriage\r", b"nl\n", b"\n", b"\r\n", b"a\rb", b"\x01\x7f", b"form\x0cfeed", b"v\x0btab"]
 
 
 def _names_scenarios(quick, seed):
@@ -103,6 +105,9 @@ def _names_scenarios(quick, seed):
         threads = [{"mode": "pause", "stack_pages": 1, "sp_off": 256, "name_hex": rnd.choice(_NAMES[:11]).hex()} for _ in range(n)]
         fail = [{"slot": i} for i in range(n) if rnd.random() < 0.4]
         scns.append({"id": f"names/rand{k}", "target": {"threads": threads}, "writer": {"blamed": "main"}, "faults": {"name_fail": fail}})
+    ctl = _NAMES[14:]
+    scns.append({"id": "names/control", "target": {"threads": [{"mode": "pause", "stack_pages": 1, "sp_off": 256, "name_hex": c.hex()} for c in ctl], "main_name_hex": ctl[0].hex()},
+                 "writer": {"blamed": "main"}})
     for k, bad in enumerate(_NAMES[11:13]):
         threads = [{"mode": "pause", "stack_pages": 1, "sp_off": 256, "name_hex": (bad if i == 0 else _NAMES[i % 11]).hex()} for i in range(3)]
         scns.append({"id": f"names/nonutf8-{k}", "target": {"threads": threads, "regions": [{"name": "code", "len": 4096, "exec": True}]},
